@@ -83,19 +83,26 @@ type world struct {
 	// popped before.
 	sentinel     *modules.Task
 	sentinelRuns atomic.Int64
+
+	// schedSentinel: the same for the schedule handler. It is scheduled with a past
+	// time; the handler's decision about it (modules.sched.decided) is a barrier: the
+	// handler goroutine has returned from whatever runWithLocking/StartASAP it was in.
+	schedSentinel *modules.Task
+	schedDecided  atomic.Int64
 }
 
 type taskRun struct {
-	idx    int
-	name   string
-	spec   TaskSpec
-	t      *modules.Task
-	hr     *histRun
-	runs   atomic.Int32 // begins
-	ends   atomic.Int32
-	active atomic.Int32
-	subs   atomic.Int32  // submissions (Queue/QueuePrioritized/StartASAP/Schedule) called so far
-	block  chan struct{} // if non-nil: the first execution waits for it before returning
+	idx     int
+	name    string
+	spec    TaskSpec
+	t       *modules.Task
+	hr      *histRun
+	runs    atomic.Int32 // begins
+	ends    atomic.Int32
+	active  atomic.Int32
+	decided atomic.Int32  // schedule handler decisions about this task (modules.sched.decided)
+	subs    atomic.Int32  // submissions (Queue/QueuePrioritized/StartASAP/Schedule) called so far
+	block   chan struct{} // if non-nil: the first execution waits for it before returning
 }
 
 type park struct {
@@ -137,7 +144,8 @@ type histRun struct {
 	// when the logical execution/event cap of the history is exceeded. The history is
 	// then stopped (no quiescence needed) and decided on the log recorded so far.
 	noStructure bool
-	q0, p0, s0  int // list lengths when the history started (leftovers of earlier histories)
+	noQuiesce   bool // the plan is decided at its own idle point; tasks stay scheduled far in the future
+	q0, p0, s0  int  // list lengths when the history started (leftovers of earlier histories)
 
 	abort    atomic.Bool
 	abortMu  sync.Mutex
@@ -196,6 +204,7 @@ func startWorld() (*world, error) {
 		w.sentinelRuns.Add(1)
 		return nil
 	}).MaxDelay(0)
+	w.schedSentinel = w.mods[0].NewTask(schedSentinelName, func(context.Context, *modules.Task) error { return nil }).MaxDelay(0)
 	for i, p := range []string{hkCleared, hkDefer, hkPrelock, hkPrerun, hkSched} {
 		i, p := i, p
 		vhook.Set(p, func(point, subject string) { w.onHook(i, p, subject) })
@@ -223,6 +232,12 @@ func startedBy() string {
 }
 
 func (w *world) onHook(i int, point, subject string) {
+	if subject == schedSentinelName {
+		if point == hkSched {
+			w.schedDecided.Add(1)
+		}
+		return
+	}
 	hr := w.cur.Load()
 	if hr == nil {
 		return
@@ -238,6 +253,7 @@ func (w *world) onHook(i int, point, subject string) {
 		hr.lastClr.Store(tr)
 	case hkSched:
 		hr.log.rec(Ev{K: "hook", Op: "decided", Task: tr.idx})
+		tr.decided.Add(1)
 	case hkPrerun:
 		hr.log.rec(Ev{K: "hook", Op: "prerun", Task: tr.idx, By: startedBy()})
 	case hkPrelock:
@@ -486,6 +502,16 @@ func (hr *histRun) read() reading {
 
 func (r reading) mismatch() bool { return !r.busy && (r.cq != r.q || r.cp != r.p || r.cs != r.s) }
 
+const schedSentinelName = "verif-sched-sentinel"
+
+// schedBarrier returns when the schedule handler has made a decision that it can only
+// make after returning from the call it was in.
+func (hr *histRun) schedBarrier() bool {
+	n := hr.w.schedDecided.Load()
+	hr.w.schedSentinel.Schedule(time.Now().Add(-time.Millisecond))
+	return waitForAbort(&hr.abort, 10*time.Second, func() bool { return hr.w.schedDecided.Load() > n })
+}
+
 // barrier sends the sentinel once through the queue.
 func (hr *histRun) barrier() bool {
 	n := hr.w.sentinelRuns.Load()
@@ -642,6 +668,7 @@ func (hr *histRun) runClients() {
 type histResult struct {
 	Aborted   string // online monitor stopped the history (reason)
 	Capped    bool   // ... because of the logical cap, not because of runs > submissions
+	NoQuiesce bool   // decided at the plan's own idle point, quiescence not awaited
 	Partial   bool   // log of a history that was still running when the child's watchdog fired
 	Hist      *Hist
 	Events    []Ev
@@ -697,7 +724,7 @@ func (w *world) run(h *Hist) *histResult {
 	w.cur.Store(nil)
 	why, capped := hr.aborted()
 	return &histResult{Hist: h, Events: evs, Quiescent: quiet && why == "", Failed: hr.failed, Notes: hr.notes, SupCancel: hr.supN,
-		WallMs: time.Since(t0).Milliseconds(), Aborted: why, Capped: capped}
+		WallMs: time.Since(t0).Milliseconds(), Aborted: why, Capped: capped, NoQuiesce: hr.noQuiesce}
 }
 
 func (hr *histRun) mark(name string) { hr.log.rec(Ev{K: "mark", Op: name, Task: -1}) }
@@ -859,6 +886,124 @@ func (hr *histRun) runPlan(limit time.Duration) bool {
 			hr.do(c, 0, Op{Kind: opSchedule, Task: T, OffMs: off})
 			hr.do(c, 0, Op{Kind: opQueue, Task: U})
 		}
+	case "sched-after-queued-run":
+		// T is queued (default max delay) behind U and runs via the queue; the next queue
+		// start (V) proves that this execution is completely over. Then T is only
+		// scheduled and comes due while V runs: a due scheduled task is queued
+		// (StartASAP) and must wait for V; nothing entitles the schedule handler to
+		// start it beside the queue.
+		hr.tasks[U].block = make(chan struct{})
+		hr.tasks[V].block = make(chan struct{})
+		hr.do(c, 0, Op{Kind: opQueue, Task: U})
+		if hr.waitBegin(U, 1) {
+			hr.do(c, 0, Op{Kind: vlibPickKind(hr), Task: T})
+		}
+		close(hr.tasks[U].block)
+		if hr.waitEnd(T, 1) {
+			hr.do(c, 0, Op{Kind: opQueue, Task: V})
+			if hr.waitBegin(V, 1) {
+				hr.do(c, 0, Op{Kind: opSchedule, Task: T, OffMs: md})
+				// pacing: until the schedule handler has dealt with T (T is in the
+				// prioritized queue, or began again)
+				tr := hr.tasks[T]
+				waitForAbort(&hr.abort, 10*time.Second, func() bool {
+					if tr.runs.Load() >= 2 {
+						return true
+					}
+					_, _, _, pr, _ := tr.t.VerifTaskState()
+					return tr.decided.Load() >= 1 && pr
+				})
+				hr.mark("scheduled-task-due-while-queue-busy")
+			}
+		}
+		close(hr.tasks[V].block)
+	case "sched-order":
+		hr.noQuiesce = true
+		for _, o := range hr.h.Clients[1] {
+			hr.do(c, 0, o)
+		}
+		// the requested times are in the log (At, relative to base)
+		model := map[int]time.Time{}
+		for _, e := range hr.log.snapshot() {
+			if e.K == "call" && e.Op == opSchedule {
+				model[e.Task] = base.Add(time.Duration(e.At))
+			}
+		}
+		hr.checkScheduleOrder(model)
+		return false
+	case "stale-queue-pop":
+		// Mirror image of the stale overdue decision: the queue handler pops T and is
+		// parked at the entry of runWithLocking (before the task lock). T's short max
+		// delay passes, the schedule handler starts T as overdue for the same
+		// submission; that execution ends completely. Then the queue handler continues
+		// with the element it popped: it must not run T again (one submission).
+		pPre := hr.park(hkPrerun, T)
+		hr.do(c, 0, Op{Kind: opMaxDelay, Task: T, DelayMs: md})
+		hr.do(c, 0, Op{Kind: vlibPickKind(hr), Task: T})
+		if hr.waitHit(pPre) && pPre.by == "queue" && hr.waitEnd(T, 1) {
+			tr := hr.tasks[T]
+			waitForAbort(&hr.abort, 10*time.Second, func() bool { // deferred reset done
+				ex, _, _, _, _ := tr.t.VerifTaskState()
+				return !ex
+			})
+			hr.mark("stale-queue-pop-released")
+			pPre.open()
+			hr.barrier()
+		}
+		pPre.open()
+	case "stale-overdue-finished", "stale-overdue-running":
+		// U holds the queue slot; T (short max delay) is queued behind it. When the max
+		// delay passes, the schedule handler decides that T is overdue and enters
+		// runWithLocking: that start is parked at its entry (prerun, before the task
+		// lock). U is released, the queue handler starts T for the same submission.
+		// finished: T's execution ends completely, then the parked overdue start
+		//   continues: it must not run T again (one submission).
+		// running: T's function schedules T for +off ms and keeps running; the parked
+		//   overdue start continues meanwhile: the new schedule entry must survive, T's
+		//   next execution must not begin before that time.
+		// A pass of the schedule sentinel proves that the overdue start has returned.
+		running := hr.h.Plan == "stale-overdue-running"
+		hr.tasks[U].block = make(chan struct{})
+		if running {
+			hr.tasks[T].block = make(chan struct{})
+			hr.tasks[T].spec.Inner = map[int][]Op{1: {{Kind: opSchedule, Task: T, OffMs: off}}}
+		}
+		hr.do(c, 0, Op{Kind: opQueue, Task: U})
+		var pPre *park
+		if hr.waitBegin(U, 1) {
+			pPre = hr.park(hkPrerun, T)
+			hr.do(c, 0, Op{Kind: opMaxDelay, Task: T, DelayMs: md})
+			hr.do(c, 0, Op{Kind: vlibPickKind(hr), Task: T})
+			if !hr.waitHit(pPre) || pPre.by != "sched" {
+				pPre.open()
+				pPre = nil
+			}
+		}
+		close(hr.tasks[U].block)
+		if pPre != nil && hr.waitBegin(T, 1) {
+			tr := hr.tasks[T]
+			if running {
+				waitForAbort(&hr.abort, 10*time.Second, func() bool { // the inner Schedule has returned
+					_, _, _, _, sc := tr.t.VerifTaskState()
+					return sc
+				})
+			} else {
+				hr.waitEnd(T, 1)
+				waitForAbort(&hr.abort, 10*time.Second, func() bool { // deferred reset done
+					ex, _, _, _, _ := tr.t.VerifTaskState()
+					return !ex
+				})
+			}
+			hr.mark("stale-overdue-decision-released:" + hr.h.Plan)
+			pPre.open()
+			hr.schedBarrier()
+		}
+		if pPre != nil {
+			pPre.open()
+		}
+		if running {
+			close(hr.tasks[T].block)
+		}
 	case "overdue-parked":
 		// The queue slot is held by U; T is queued with a short max delay, so its first
 		// start is the overdue path of the schedule handler. That start is parked at its
@@ -925,4 +1070,66 @@ func (w *world) partial() *histResult {
 	why, capped := hr.aborted()
 	return &histResult{Hist: hr.h, Events: hr.log.snapshot(), Quiescent: false, Partial: true, Aborted: why, Capped: capped,
 		Failed: "the child's watchdog fired while this history was running; its partial event log was analysed"}
+}
+
+// checkScheduleOrder decides, at the idle point after a strictly sequential series of
+// Schedule calls on never-due tasks (no call in flight, nothing executing, no handler
+// activity on the schedule), that the task schedule is sorted by execution time and
+// equals the model order. On the unchanged code addToSchedule - under scheduleLock -
+// moves/inserts the task before the first *other* entry with a later time (ties: behind
+// the equal ones), else to the back; with sequential calls every entry's time is the
+// one it was sorted by, so the list is sorted after every call. (This does not hold for
+// concurrent calls - the time is written under the task lock before the list lock is
+// taken - nor for a Schedule on a cancelled listed task, which changes the time without
+// re-sorting; neither occurs in this plan.) The reading is confirmed over two sentinel
+// barriers like the list-membership invariant.
+func (hr *histRun) checkScheduleOrder(model map[int]time.Time) {
+	read := func() (string, []string, []time.Time) {
+		names, at := modules.VerifScheduleOrder()
+		var sb strings.Builder
+		for i := range names {
+			fmt.Fprintf(&sb, "%s@%d;", names[i], at[i].UnixNano())
+		}
+		return sb.String(), names, at
+	}
+	if hr.s0 != 0 || hr.anyExecuting() {
+		hr.note("schedule-order not decided: schedule not empty at history start or a task executing")
+		return
+	}
+	seq := hr.log.now()
+	sig0, names, at := read()
+	for i := 0; i < 2; i++ {
+		if !hr.barrier() {
+			hr.failed = "sentinel barrier did not complete"
+			return
+		}
+		if s, _, _ := read(); s != sig0 || hr.log.now() != seq {
+			hr.failed = "schedule changed at the idle point of the sched-order plan"
+			return
+		}
+	}
+	var order []string
+	bad := ""
+	for i := range names {
+		tr := hr.byName[names[i]]
+		if tr == nil {
+			hr.failed = "foreign task in the schedule"
+			return
+		}
+		order = append(order, fmt.Sprintf("t%d@+%dmin", tr.idx, int(at[i].Sub(base).Minutes())))
+		if i > 0 && at[i].Before(at[i-1]) && bad == "" {
+			bad = fmt.Sprintf("entry %d (%s) is scheduled earlier than the entry before it", i+1, order[i])
+		}
+		if want, ok := model[tr.idx]; bad == "" && (!ok || !want.Equal(at[i])) {
+			bad = fmt.Sprintf("entry %d (%s) does not carry the time of the task's last Schedule call", i+1, order[i])
+		}
+	}
+	if bad == "" && len(names) != len(model) {
+		bad = fmt.Sprintf("%d tasks were scheduled but the schedule holds %d entries", len(model), len(names))
+	}
+	hr.log.rec(Ev{K: "mark", Op: "schedule-order-checked", Task: -1})
+	if bad != "" {
+		hr.log.rec(Ev{K: "mark", Op: "structure:schedule-order", Task: -1,
+			C: fmt.Sprintf("after %d sequential Schedule calls by one client on never-due tasks the schedule is not sorted by execution time: %s; list order: %v", len(hr.h.Clients[1]), bad, order)})
+	}
 }
